@@ -175,6 +175,8 @@ def r2(ctx):
                 continue
             n_sel += 1
             last = pred_calls[-1] if pred_calls else None
+            if isinstance(sel, Struct) and sel.variant in ("Some", "None") and e.name.split("::")[-1] == "filter_map":
+                sel = 1 if sel.variant == "Some" else 0  # filter_map keeps the entry exactly when the closure yields Some
             if last is None:
                 ok = False
             elif tform(sel) == last.result:
